@@ -5,7 +5,8 @@
 From Coq Require Import ZArith QArith Qround Bool List.
 Require Import QV.C07.Model QV.C07.Spec QV.C07.Wf QV.C07.ProofsRange QV.C07.ProofsLoop QV.C07.ProofsAtoms
                QV.C07.ProofsDur QV.C07.ProofsInt QV.C07.ProofsEnds QV.C07.ProofsIni QV.C07.ProofsFin QV.C07.ProofsPad QV.C07.ProofsWit
-               QV.C07.Hist QV.C07.ProofsHist QV.C07.Def QV.C07.ProofsDef QV.C07.Embed QV.C07.ProofsMul.
+               QV.C07.Hist QV.C07.ProofsHist QV.C07.Def QV.C07.ProofsDef QV.C07.Embed QV.C07.ProofsMul
+               QV.C07.Disc QV.C07.GenDisc QV.C07.ProofsDisc.
 Import ListNotations.
 Open Scope Q_scope.
 
@@ -352,3 +353,23 @@ Theorem C07_pad_holds_final_value : forall p rho pcs d' dd vs c v,
   exists ppcs, denote (pad_to p d') rho = Some ppcs /\ p_end ppcs c = Some v.
 Proof. exact pad_to_end. Qed.
 Print Assumptions C07_pad_holds_final_value.
+
+(* ---- round 4: the object discipline of Hist.hquery is the one of the SOURCE ---- *)
+(* Hist.hquery, class by class and property by property, follows the table Disc.hist_disc: a new dictionary / the
+   sub-template's dictionary handed through / the sub-template's dictionary rewritten in place *)
+Theorem C07_hquery_discipline : forall q p h, follows (hist_disc (cls_of p) q) q p h.
+Proof. exact hquery_discipline. Qed.
+Print Assumptions C07_hquery_discipline.
+
+(* GenDisc.src_disc is read off the Python AST of the twelve classes on every run (harness/props/c07_disc.py, fail
+   closed): wherever the source hands a sub-template's dictionary through or rewrites it in place, hquery does exactly
+   that; where the source creates a new dictionary hquery may share (never the other way round) *)
+Theorem C07_hquery_follows_source_discipline :
+  table_le src_disc hist_disc = true /\
+  forall q p h, match src_disc (cls_of p) q with DNew => True | d => follows d q p h end.
+Proof. split; [exact source_table_le|exact hquery_follows_source]. Qed.
+Print Assumptions C07_hquery_follows_source_discipline.
+
+Example C07_source_discipline_nonvacuous :
+  src_disc KFor QInitial = DInPlace /\ src_disc KSeq QFinal = DThrough /\ src_disc KConst QInitial = DNew.
+Proof. exact source_shares. Qed.
